@@ -427,6 +427,26 @@ func Mutators() []Mutator {
 		signExit(m, e, e.Message.ValidatorIndex, refspec.DomainVoluntaryExit, false)
 		return true
 	})
+	exMut("dated-previous-epoch(valid)", func(m *MutCtx, e *refspec.SignedVoluntaryExit) bool {
+		cur := m.Pre.CurrentEpoch(m.W.C)
+		if cur == 0 {
+			return false
+		}
+		e.Message.Epoch = cur - 1
+		signExit(m, e, e.Message.ValidatorIndex, refspec.DomainVoluntaryExit, false)
+		return true
+	})
+	exMut("dated-previous-epoch-but-signed-for-the-current-epoch", func(m *MutCtx, e *refspec.SignedVoluntaryExit) bool {
+		c := m.W.C
+		cur := m.Pre.CurrentEpoch(c)
+		if cur == 0 || m.Pre.F >= refspec.Deneb {
+			return false
+		}
+		e.Message.Epoch = cur - 1
+		dom := m.Pre.Domain(c, refspec.DomainVoluntaryExit, cur)
+		e.Signature = m.W.Sign(m.key(e.Message.ValidatorIndex), refspec.SigningRoot(refssz.Root(&e.Message, nil), dom))
+		return true
+	})
 	exMut("signed-by-other-validator", func(m *MutCtx, e *refspec.SignedVoluntaryExit) bool {
 		signExit(m, e, (e.Message.ValidatorIndex+1)%uint64(len(m.Pre.Validators)), refspec.DomainVoluntaryExit, false)
 		return true
